@@ -40,6 +40,15 @@ def vis (W : Option Int) (seq : Nat) (p : Int) (e : Entry) : Bool :=
 def visible (W : Option Int) (s : Spec) (seq : Nat) (p : Int) : List Entry :=
   s.filter (vis W seq p)
 
+/-- visibility for a pass with `CausalOptions.Except`: a token whose batch index is excepted
+    (`enabled = false`) is not restricted to positions ≤ its own; sequence and the lower window bound
+    still apply -/
+def visE (enabled : Bool) (W : Option Int) (seq : Nat) (p : Int) (e : Entry) : Bool :=
+  decide (seq ∈ e.seqs) && !(enabled && decide (e.pos > p)) && inWindow W e.pos p
+
+def visibleE (enabled : Bool) (W : Option Int) (s : Spec) (seq : Nat) (p : Int) : List Entry :=
+  s.filter (visE enabled W seq p)
+
 /-- store a batch: one fresh entry per token, owned by the token's sequence, shift 0 -/
 def store (s : Spec) (batch : List (Tok × Nat)) : Spec :=
   s ++ batch.map (fun t => ⟨[t.1.seq], t.1.pos, t.2, 0⟩)
